@@ -185,6 +185,19 @@ CHECKS = {
         "decide are explored anyway and listed as inconclusive if they return inward faces.",
         design="3/C16",
     ),
+    "C13": dict(
+        engine="E2",
+        technique="symbolic execution of the real Sphere/Dipole wrappers, BHJM_cylinder_segment_internal vs BHJM_magnet_cylinder, "
+        "BHJM_magnet_tetrahedron (check_chirality, sheet construction observed by a spy on the triangle kernel) and BHJM_magnet_trimesh over z3 "
+        "terms; identities discharged per feasible path as SMT obligations",
+        text="Bounded symbolic model checking of the algebraically decidable representation identities, for all real inputs: Sphere outside == "
+        "Dipole(M*V); full-angle CylinderSegment == Cylinder (minus the inner cylinder iff r1>0), term-identical; the four sheets a Tetrahedron "
+        "hands to the triangle kernel are its four faces, each outward, for both chiralities of fully symbolic vertices, and H is their sum; "
+        "TriangularMesh H == sum over faces for equal and ragged face counts, B - mu0 H in {0, J}.",
+        note="Leaf kernels uninterpreted. NOT decided (stated): Cuboid = mesh = tetrahedra, Cylinder = sum of segments, cut-plane partitions, "
+        "Polyline -> Circle (different transcendental closed forms / limits), and the mesh converters (np.unique / ConvexHull).",
+        design="3/C13",
+    ),
 }
 
 NOT_APPLICABLE = {
